@@ -3,10 +3,11 @@
    EVERY pattern sequence (total length below 2^30 labels) and both builders: an invalid collection
    is answered with exactly the error kind of its first offending entry (empty collection, empty
    pattern, repeat -- including repeats dropped by leftmost-first), and whatever construction
-   accepts is valid (trie invariant, Proofs/TrieInv.v).  NOT proved: that a valid collection is
-   accepted without a panic by the later phases of the model (fail links, double-array layout:
-   helper invariant); that direction is decided by the correspondence check. *)
-From DV Require Import Model.Base Model.Nfa Model.BwBuild Model.Utf8 Model.CwBuild Model.Spec Proofs.BuildProps Proofs.TrieInv Proofs.BuildTrie.
+   accepts is valid (trie invariant, Proofs/TrieInv.v); and construction NEVER PANICS: for every
+   pattern sequence, kind and num_free_blocks >= 1 both builders return Ok or a documented error
+   (bw_construction_never_panics, cw_construction_never_panics; Proofs/NoPanic.v on top of the
+   vacant-list invariant of build_helper.rs, Proofs/HelperList.v). *)
+From DV Require Import Model.Base Model.Nfa Model.BwBuild Model.Utf8 Model.CwBuild Model.Spec Proofs.BuildProps Proofs.TrieInv Proofs.BuildTrie Proofs.NoPanic.
 Local Open Scope N_scope.
 
 (* the oracle says "must succeed" exactly for non-empty collections without an empty pattern and
@@ -101,6 +102,51 @@ Proof.
   destruct (regd V k (pv :: r)); [congruence|]. cbn [length]. lia.
 Qed.
 Print Assumptions pattern_loop_accepts_valid_collections.
+
+(* CONSTRUCTION NEVER PANICS.  For EVERY pattern sequence (byte strings / scalar strings of total
+   length below 2^30 labels), every match kind and every num_free_blocks >= 1 (zero is rejected by
+   the documented assertion of the setter), build_with_values of the model returns Ok or Err:
+   never a failed assertion, a failed unwrap, an out-of-range index, undefined behaviour or fuel
+   exhaustion.  The pattern loop is total by the trie invariant; the fail-link and output phases
+   by NfaFails / NfaFailsLm; the layout phase because the vacant indices of the active blocks form
+   a sorted doubly linked ring starting at head_idx (HelperList.HL), which use_index, push_block
+   and the vacant iterator preserve: every offset assertion holds, every find_base candidate lies
+   in an active block, the closing block's vacancies are retired before the window moves, every
+   child slot is vacant when it is taken, and the depth-first loop stops after one iteration per
+   state. *)
+Theorem bw_construction_never_panics :
+  forall (V : Type) k nfb (pvs : list (list N * V)), nfb <> 0 ->
+    (forall p v, In (p, v) pvs -> Forall (fun b => b < 256) p) -> 4 * total_len V pvs <= U32_MAX - 1 ->
+    match bw_build_with_values V k nfb pvs with Ok _ | Err _ => True | _ => False end.
+Proof. exact bw_build_no_panic. Qed.
+Print Assumptions bw_construction_never_panics.
+
+Theorem cw_construction_never_panics :
+  forall (V : Type) k nfb (pvs : list (list N * V)), nfb <> 0 ->
+    4 * total_len V pvs <= U32_MAX - 1 ->
+    match cw_build_with_values V k nfb pvs with Ok _ | Err _ => True | _ => False end.
+Proof. exact cw_build_no_panic. Qed.
+Print Assumptions cw_construction_never_panics.
+
+(* ACCEPTS EVERY VALID COLLECTION: a valid collection is built, or refused with AutomatonScale
+   alone (the array or the output table would outgrow u32 / u24) -- never with one of the three
+   validity errors, never with a panic.  Together with bw/cw_invalid_collection_rejected this is
+   "accepts exactly the valid collections". *)
+Theorem bw_valid_collections_are_built_or_too_large :
+  forall (V : Type) k nfb (pvs : list (list N * V)), nfb <> 0 ->
+    (forall p v, In (p, v) pvs -> Forall (fun b => b < 256) p) -> 4 * total_len V pvs <= U32_MAX - 1 ->
+    spec_build_error (map fst pvs) = None ->
+    match bw_build_with_values V k nfb pvs with Ok _ => True | Err AutomatonScale => True | _ => False end.
+Proof. exact bw_build_valid. Qed.
+Print Assumptions bw_valid_collections_are_built_or_too_large.
+
+Theorem cw_valid_collections_are_built_or_too_large :
+  forall (V : Type) k nfb (pvs : list (list N * V)), nfb <> 0 ->
+    4 * total_len V pvs <= U32_MAX - 1 ->
+    spec_build_error (map fst pvs) = None ->
+    match cw_build_with_values V k nfb pvs with Ok _ => True | Err AutomatonScale => True | _ => False end.
+Proof. exact cw_build_valid. Qed.
+Print Assumptions cw_valid_collections_are_built_or_too_large.
 
 (* Non-vacuity and the repaired finding F2: repeats shadowed under leftmost-first are rejected. *)
 Example c10_observed :
